@@ -73,6 +73,8 @@ Step(ev) ==
   \/ /\ ev.op = "prefix" /\ Pure /\ StartOK /\ ev.res = Ops!PrefixLen(E, 0, ev.w)
   \/ /\ ev.op = "enumerate" /\ Pure
      /\ {<<p[1], p[2]>> : p \in SetOf(ev.res)} = Ops!Paths(E, ev.v, ev.k) /\ NoDup(ev.res)
+  \/ /\ ev.op = "enumerate_words" /\ Pure
+     /\ {<<p[1], p[2]>> : p \in SetOf(ev.res)} = Ops!WordsUpToLen(E, ev.v, ev.k) /\ NoDup(ev.res)
   \* ---- operations returning a new automaton: original unchanged, result as specified
   \/ /\ ev.op = "recurrent_copy" /\ Pure
      /\ ViewsAre(ev.res, Ops!PruneAll(vs, E)[1], Ops!PruneAll(vs, E)[2])
